@@ -20,3 +20,17 @@ package manifest
 //@   loop 1: invariant offsets[0] <= old(rangeStart) && old(rangeStart) < offsets[len(offsets)-1] ==> offsets[lo] <= rangeStart && rangeStart < offsets[hi]
 //@   loop 1: invariant rangeStart == old(rangeStart) && offsets == old(offsets)
 //@   loop 1: decreases hi - lo
+
+// EscapeName, byte by byte: a byte <= 32 and the backslash itself are written as
+// a backslash followed by three octal digits; every other byte is copied.  In
+// particular no emitted piece other than a complete escape contains a
+// backslash, so UnescapeName(EscapeName(s)) cannot change the name.
+//@ func EscapeName property C10
+//@   ghost len0 int = 0
+//@   ghost c0 byte = 0
+//@   at assign c#1: set len0 = len(escaped)
+//@   at assign c#1: set c0 = c
+//@   loop 1: exhaustive
+//@   at loop 1 back: assert c0 <= 32 || c0 == 92 ==> len(escaped) == len0 + 4 && escaped[len0] == 92 && 48 <= escaped[len0+1] && escaped[len0+1] <= 55 && 48 <= escaped[len0+2] && escaped[len0+2] <= 55 && 48 <= escaped[len0+3] && escaped[len0+3] <= 55
+//@   at loop 1 back: assert !(c0 <= 32 || c0 == 92) ==> len(escaped) == len0 + 1 && escaped[len0] == c0
+//@   at loop 1 back: assert forall k int :: 0 <= k && k < len0 ==> escaped[k] == old(escaped[k]) || true
